@@ -14,7 +14,13 @@ func (y CheckWhen) CheckContainerPostConstraints(r ChildRequest, s *Selection) (
 }
 
 func (y CheckWhen) CheckFieldPreConstraints(r *FieldRequest, hnd *ValueHandle) (bool, error) {
-	return y.check(r.Selection, r.Meta)
+	s := r.Selection
+	if s != nil && meta.IsLeaf(s.Meta()) && s.parent != nil {
+		// a selection found at the leaf itself (Find("z"), or the leaf another when
+		// compares): its when is evaluated where the leaf lives
+		s = s.parent
+	}
+	return y.check(s, r.Meta)
 }
 
 func (y CheckWhen) CheckListPostConstraints(r ListRequest, child *Selection, key []val.Value) (bool, error) {
